@@ -75,7 +75,10 @@ def cases(tier, seed):
     kpm = [dict(n=6, blocks=[1], opts={}), dict(n=6, blocks=[2], opts={"atol": 1e-4}),
            dict(n=6, blocks=[1, 1], opts={}), dict(n=6, blocks=[1, 1], opts={"atol": 1e-4}),
            dict(n=6, blocks=[1], opts={"max_moments": 50}), dict(n=6, blocks=[1], opts={"auxiliary_vectors": 2}),
-           dict(n=6, blocks=[1, 1], opts={"auxiliary_vectors": 1, "atol": 1e-4})]
+           dict(n=6, blocks=[1, 1], opts={"auxiliary_vectors": 1, "atol": 1e-4}),
+           # complex Hermitian h_0 whose explicit levels are real basis vectors, real right-hand side
+           dict(n=6, blocks=[1], opts={}, layout="localized-complex"),
+           dict(n=6, blocks=[1, 1], opts={"atol": 1e-6}, layout="localized-complex")]
     if tier != "quick":
         kpm += [dict(n=8, blocks=[2, 1], opts={"atol": 1e-5}), dict(n=8, blocks=[1], opts={"atol": 1e-6, "eps": 0.05}),
                 dict(n=8, blocks=[2], opts={"auxiliary_vectors": 2})]
@@ -358,6 +361,14 @@ def run_kpm(case):
     opts = dict(case["opts"])
     h0, E, Rm, Lm = make_problem(n, blocks, "none", "orth", "rr", case["seed"])
     nexp = sum(blocks)
+    if case.get("layout") == "localized-complex":
+        rng0 = np.random.default_rng([case["seed"], 91])
+        A = rng0.normal(size=(n - nexp, n - nexp)) + 1j * rng0.normal(size=(n - nexp, n - nexp))
+        Qc, _ = np.linalg.qr(A)
+        h0 = np.zeros((n, n), dtype=complex)
+        h0[:nexp, :nexp] = np.diag(E[:nexp])
+        h0[nexp:, nexp:] = Qc @ np.diag(E[nexp:]) @ Qc.conj().T
+        Rm = np.eye(n)
     off = [0] + list(np.cumsum(blocks))
     eigvecs = tuple(Rm[:, off[b] : off[b + 1]] for b in range(len(blocks)))
     if isinstance(opts.get("auxiliary_vectors"), int):
@@ -376,7 +387,7 @@ def run_kpm(case):
             X = solve(Y.copy(), (b, nb))
             res = np.diag(Eb) @ X - X @ h0 - Y @ P
             want = opts.get("atol", 1e-5)
-            converged = not any(issubclass(w.category, RuntimeWarning) for w in wl)
+            converged = not any(issubclass(w.category, RuntimeWarning) and "converge" in str(w.message) for w in wl)
             if converged and np.abs(res).max() > 50 * want * max(1.0, np.abs(Y).max()) * n:
                 V.append(f"KPM ({b}, implicit): residual {np.abs(res).max():.2e} exceeds 50 x requested accuracy {want} without a convergence warning")
             for b2 in range(nb):
